@@ -252,11 +252,37 @@ def run(ctx):
         ctx.floor("parser call sites (%s)" % cfg, len(results), 25)
         allowed_units = {roles.entry.key, roles.value_parser.key} | set(roles.parsers) | {lb.key for lb in roles.list_parsers}
         allowed_units |= {fk for fk, info in roles.op_fns.items() if info["role"] == "lazy"}
+        # … and the private helper functions of those units: a function all of whose uses (calls, references as a value)
+        # lie in allowed units or in other such helpers runs only as part of them.  (Where the parse call sits is a
+        # matter of spelling; what is parsed there is decided by K4.literal-inside on the provenance of the argument.)
+        cg, _ = facts.callgraph()
+        users = {}
+        for k_, vs in cg.items():
+            for v_ in vs:
+                users.setdefault(v_, set()).add(k_)
+        table_fns = {fk for fk in roles.op_fns}
+
+        def root_of(k_):
+            while "::{closure#" in k_ and k_ not in allowed_units:
+                k_ = k_.rsplit("::{closure#", 1)[0]
+            return k_
+
+        def runs_inside_allowed(k_, seen=()):
+            k_ = root_of(k_)
+            if k_ in allowed_units:
+                return True
+            it_ = facts.items.get(k_) or {}
+            if k_ in seen or len(seen) > 8 or k_ in table_fns or it_.get("exported") or it_.get("no_mangle"):
+                return False
+            us = {root_of(u) for u in users.get(k_, ())} - {k_}
+            for sub in [kk for kk in cg if kk.startswith(k_ + "::{closure#")]:
+                us -= {sub}
+            return bool(us) and all(runs_inside_allowed(u, seen + (k_,)) for u in us)
         for sk, verdict, how in results:
             unit = sk.body.key
             while "::{closure#" in unit and unit not in allowed_units:
                 unit = unit.rsplit("::{closure#", 1)[0]
-            ctx.check(unit in allowed_units, "K4.who-may-parse", sk.ident(),
+            ctx.check(unit in allowed_units or runs_inside_allowed(unit), "K4.who-may-parse", sk.ident(),
                       "the value parser is invoked from %s, which is neither the entry point, the parser itself nor a lazy operator — something classified as a literal may be evaluated there" % sk.body.key,
                       where=sk.body.where(sk.bi), fn=sk.body.key, nontrivial=True)
             if verdict == "dirty":
